@@ -119,3 +119,21 @@ def with_extras(rng, rows, extras):
                 raise KeyError(col)
         out.append(tuple(r) + tuple(ex))
     return out
+
+
+# ------------------------------------------------------------ copy-number arrays
+
+def make_cna(columns, meta=None, index=None):
+    """CopyNumArray from a dict of columns (chromosome,start,end,gene,log2,...)."""
+    from cnvlib.cnary import CopyNumArray
+    df = pd.DataFrame(columns)
+    if index is not None:
+        df.index = index
+    return CopyNumArray(df, meta or {"sample_id": "S"})
+
+
+def cna_records(cna, cols=None):
+    df = cna.data if hasattr(cna, "data") else cna
+    cols = cols or list(df.columns)
+    lists = [df[c].tolist() for c in cols]
+    return [tuple(_plain(x) for x in t) for t in zip(*lists)]
